@@ -8,6 +8,10 @@ interpretation model `Model/Gsd/Interp.lean` (typed AST → description | error 
 -/
 import ProfiVerif.Lemmas.GsdFaithful5
 import ProfiVerif.Model.Gsd.Peg
+import ProfiVerif.Lemmas.PegAst
+import ProfiVerif.Lemmas.PegFuel
+import ProfiVerif.Lemmas.PegTextDesc
+import ProfiVerif.Lemmas.PegTextDescAll
 
 namespace PV.C19
 open PV.Gsd
@@ -101,16 +105,138 @@ theorem lex_key_case_module (st : St) (acc : ModAcc) (s : Setting) (key' : Str) 
 theorem lex_type_case (a b : Str) (h : lower a = lower b) : dataTypeOfName a = dataTypeOfName b :=
   dataTypeOfName_case a b h
 
-/-! ### Not proved: the grammar layer -/
+/-! ### The grammar layer -/
 
-/-- NOT PROVED.  End-to-end panic freedom of the model `parse = interp ∘ toAst ∘ PEG`: needs
-"every pair tree the PEG interpreter builds for `gsd.pest` has the shape `toAst` expects", i.e. a
-verified reading of the grammar.  The PEG transcription is validated differentially against the real
-pest parser instead (engine `gsd`), and the pest runtime is trusted not to panic. -/
-def parse_no_panic_full : Prop := ∀ text : Str, parse text ≠ some .panic
+/-- **The parser model never panics, end to end.**  For **every** input text the model
+`parse = interp ∘ toAst ∘ PEG(gsd.pest)` of `gsd_parser::parser::parse_with_warnings` answers a
+description, an error value or (see `parse_fuel_full`) "out of fuel" — never `panic`:
+every pair tree the PEG interpreter builds for the grammar *generated from gsd.pest* has the shape
+`toAst` (i.e. the `match pair.as_rule()` / `.next().unwrap()` / `assert!` / `unreachable!()` code of
+parser.rs) expects, and the interpretation of the resulting AST never panics (`interp_no_panic`).
 
-/-- NOT PROVED.  The PEG never runs out of its fuel bound `3·len + 1000`. -/
-def parse_fuel_full : Prop := ∀ text : Str, parse text ≠ none
+Proof: `Peg.eval_prod` (for an arbitrary grammar, whatever `eval` produces for an expression is in the
+tree language `Prod` of that expression), `Peg.acc_checked` (a kernel-evaluated decision procedure,
+sound by `Peg.postE_sound`: the child words of every rule of the generated grammar lie in the regular
+language `Peg.acc r` that `toAst` digests — re-evaluated whenever Grammar.lean is regenerated), and
+`Peg.toAst_total` (`toAst` is total on such trees). -/
+theorem parse_no_panic_full (text : Str) : parse text ≠ some .panic := by
+  unfold parse
+  split
+  · simp
+  · simp
+  · next tree htree =>
+    obtain ⟨hr, hok⟩ := Peg.parseGsd_ok Peg.acc_checked Peg.gsd_not_silent htree
+    obtain ⟨ast, hast⟩ := Peg.toAst_total hok hr
+    rw [hast]
+    simp only [ne_eq, Option.some.injEq]
+    exact interp_no_panic ast
+
+/-- Non-vacuity: a text that goes through the PEG, `toAst` and the interpretation. -/
+example : (match parse "#Profibus_DP\nVendor_Name = \"x\" ; c\nModule = \"m\" 0x10, 2\n7\nEndModule\n".toList with
+    | some (.ok (d, _)) => d.vendor == ['x'] && d.availableModules.length == 1
+    | _ => false) = true := by
+  decide +kernel
+
+/-- The static recursion depth of the generated grammar is defined (no recursive rule, no repetition
+with a possibly empty body — the conditions pest's own validator imposes) and at most 1000; evaluated
+by the kernel, re-evaluated whenever Grammar.lean is regenerated. -/
+theorem fuel_checked : Peg.fuelCheck 1000 = true := by decide +kernel
+
+/-- **The PEG interpreter never runs out of fuel**: for **every** text the bound `3·len + 1000` used by
+`parse` suffices (`Peg.noFuelAt`, for an arbitrary grammar: `eval` needs at most
+`depth e + remaining length` levels of recursion, because every level either descends in the
+expression / rule nesting or is an iteration of a repetition whose body consumes input). -/
+theorem parse_fuel_full (text : Str) : parse text ≠ none := by
+  unfold parse
+  split
+  · next h => exact (Peg.parseGsd_fuel fuel_checked text h).elim
+  · simp
+  · split <;> simp
+
+/-- **C19, first half, for the model**: for every text the parser model returns a description (with
+warnings) or an error value. -/
+theorem parse_total (text : Str) :
+    (∃ d ws, parse text = some (.ok (d, ws))) ∨ (∃ e, parse text = some (.err e)) := by
+  have h1 := parse_no_panic_full text
+  have h2 := parse_fuel_full text
+  cases h : parse text with
+  | none => exact (h2 h).elim
+  | some r =>
+    cases r with
+    | ok v => exact .inl ⟨v.1, v.2, rfl⟩
+    | err e => exact .inr ⟨e, rfl⟩
+    | panic => exact (h1 h).elim
+
+/-! ### Text level (partial) -/
+
+/-- **Text-level faithfulness, settings sub-language.**  For every non-empty list of *canonical*
+settings — key an identifier (letters, digits, `_`, `.`) that no block keyword (`PrmText`, `Module`,
+`SlotDefinition`, …) clashes with, optional `(index)`, value a decimal number, a string literal without
+inner quotation mark, or a list of at least two decimal numbers — the model parser, run on the text
+`#Profibus_DP` + one line `key[(idx)]=value` per setting, answers exactly the interpretation of those
+settings: the whole chain text → PEG (generated grammar: `any_text`, `start`, implicit skipping,
+the nine block alternatives of `statement` failing, `setting`, `setting_value` with its look-aheads,
+`number_list`, `NEWLINE+`, `EOI`) → pair tree → `toAst` → `interp` is proved, for all such texts. -/
+theorem text_faithful_settings_partial (s : Setting) (ss : List Setting) (h : ∀ x ∈ s :: ss, Peg.LineCanon x) :
+    parse (Peg.fileText ((s :: ss).map Peg.settingItem)) = some (interp ((s :: ss).map Stmt.setting)) :=
+  Peg.parse_file fuel_checked s ss h
+
+/-- **The scalar part of every description is reproduced from its text**: identification data,
+sizes, feature flags, supported speeds and response times (the 42 settings of `scalarStmts`), written
+one per line after `#Profibus_DP`, are parsed — text to description — to the description holding
+exactly these values (all other fields as after `Default::default()`), followed by the
+post-processing `finish` (legacy prm data, `Max_Module` default, compact-station rule). -/
+theorem text_faithful_scalars_partial (d : Desc) (h : ScalarsOk d) (hq : Peg.ScalarsNoQuote d) :
+    parse (Peg.scalarText d) =
+      some (finish { gsd := scalarsOf d, maxModulesSeen := true, modularSeen := true }) := by
+  rw [Peg.parse_scalarText fuel_checked d hq]
+  simp only [interp, run_scalars d h]
+  rfl
+
+/-- **Text-level faithfulness, all interpreted statement kinds, canonical rendering.**  For every
+non-empty list of canonical statements — settings as above, `PrmText … EndPrmText` blocks,
+`ExtUserPrmData … EndExtUserPrmData` blocks (data type `Bit(n)` / `BitArea(a-b)` / identifier, default,
+optional range or value set, optional `Prm_Text_Ref` / `Changeable` / `Visible` lines),
+`Module … EndModule` blocks (name, configuration bytes, optional reference line, setting lines),
+`SlotDefinition … EndSlotDefinition` with `Slot(n)="…" d a-b | v1,v2,…` lines and
+`Unit_Diag_Area … Unit_Diag_Area_End` blocks — the model parser, run on the canonical text `renderAst`
+(`#Profibus_DP`, one statement per line / block, single blanks between tokens that would merge,
+LF line ends), answers exactly the interpretation of that statement list. -/
+theorem text_faithful_partial (st : Stmt) (rest : Ast) (h : ∀ x ∈ st :: rest, Peg.StmtCanon x) :
+    parse (Peg.renderAst (st :: rest)) = some (interp (st :: rest)) :=
+  Peg.parse_renderAst fuel_checked st rest h
+
+/-- **`parse (render d) = d` for the canonical rendering**: for every description `d` of the
+printer's domain (`Desc.WF`, as in `interp_faithful`) that the canonical text can express
+(`Peg.DescCanon`: no quotation mark inside strings, parameter byte lists of at least two bytes,
+non-empty module configurations, slot module sets, text tables, enumerations and area value tables),
+parsing the canonical text of `d` — text → PEG → pair tree → `toAst` → `interp` — returns exactly `d`. -/
+theorem text_faithful_desc_partial (d : Desc) (h : d.WF) (hc : Peg.DescCanon d) :
+    ∃ ws, parse (Peg.renderAst (astOf d)) = some (.ok (d, ws)) := by
+  obtain ⟨ws, hws⟩ := interp_faithful d h
+  refine ⟨ws, ?_⟩
+  have hcan := Peg.astOf_canon d hc
+  obtain ⟨st, rest, hast⟩ : ∃ st rest, astOf d = st :: rest := ⟨_, _, rfl⟩
+  rw [hast] at hcan hws ⊢
+  rw [text_faithful_partial st rest hcan, hws]
+
+/-- Hypotheses are satisfiable, and the text is the expected one. -/
+def exampleSetting : Setting :=
+  { key := "Ext_User_Prm_Data_Const".toList, index := some (.dec ("0".toList)),
+    value := .list [.dec ("1".toList), .dec ("-2".toList), .dec ("30".toList)] }
+
+example : Peg.LineCanon exampleSetting := by
+  refine ⟨⟨⟨'E', "xt_User_Prm_Data_Const".toList, rfl, by decide⟩, ?_, ⟨by decide, ?_⟩⟩, by decide⟩
+  · intro n hn; cases hn; exact ⟨'0', [], .inl rfl, by decide⟩
+  · intro n hn
+    simp only [List.mem_cons, List.not_mem_nil, or_false] at hn
+    rcases hn with rfl | rfl | rfl
+    · exact ⟨'1', [], .inl rfl, by decide⟩
+    · exact ⟨'2', [], .inr rfl, by decide⟩
+    · exact ⟨'3', ['0'], .inl rfl, by decide⟩
+
+example : Peg.fileText ([exampleSetting, { key := "Vendor_Name".toList, index := none, value := .str ("\"x y\"".toList) }].map Peg.settingItem) =
+    "#Profibus_DP\nExt_User_Prm_Data_Const(0)=1,-2,30\nVendor_Name=\"x y\"\n".toList := by decide
 
 /-! ### Non-vacuity -/
 
@@ -167,5 +293,34 @@ example : exampleDesc.WF where
     simp only [exampleDesc, List.mem_singleton] at ha
     subst ha
     exact ⟨by decide, by decide, by decide, by decide⟩
+
+/-- `exampleDesc` (every kind of content) satisfies the additional hypothesis. -/
+example : Peg.DescCanon exampleDesc where
+  scalars := by constructor <;> decide
+  defs := by
+    intro f hf
+    simp only [allDefs, moduleDefs, exampleDesc, List.map_nil, List.nil_append, List.flatMap_cons, List.flatMap_nil,
+      List.map_cons, List.append_nil, List.mem_singleton] at hf
+    subst hf
+    exact ⟨by decide, by intro vs hvs; cases hvs; decide,
+      by intro m hm; cases hm; exact ⟨by decide, by decide⟩⟩
+  prm := by decide
+  modules := by
+    intro m hm
+    simp only [exampleDesc, List.mem_singleton] at hm
+    subst hm
+    exact ⟨by decide, by decide, by intro t ht; cases ht; decide, by decide⟩
+  slots := by decide
+  bits := by
+    intro b hb
+    simp only [exampleDesc, List.mem_singleton] at hb
+    subst hb
+    exact ⟨by decide, by intro t ht; cases ht; decide⟩
+  notBits := by intro b hb; cases hb
+  areas := by
+    intro a ha
+    simp only [exampleDesc, List.mem_singleton] at ha
+    subst ha
+    exact ⟨by decide, by decide⟩
 
 end PV.C19
